@@ -1503,13 +1503,13 @@ def run(ctx):
     ctx.sample({"k3_case": c3[-1], "impl": i3[-1]})
 
     # ---------------------------------------------------------------- oracle
-    budget = 75 if ctx.quick else 480
+    budget = 60 if ctx.quick else 480
     t0 = time.time()
     for spec in corpus["oracle"]:
         orc.one_problem(spec)
     kinds = ["mc", "sse", "sme", "nm", "mc", "sme"]
     nprob = 0
-    while time.time() - t0 < budget and nprob < (140 if ctx.quick else 2500):
+    while time.time() - t0 < budget and nprob < (120 if ctx.quick else 2500):
         spec = gen_problem(orc.rng, kinds[nprob % len(kinds)])
         orc.one_problem(spec)
         nprob += 1
